@@ -288,10 +288,12 @@ func checkC09(c *Ctx) {
 func checkC11(c *Ctx) {
 	c.R.Clauses = append(c.R.Clauses,
 		"G1: every service / job goroutine of Orchestrator.Run, Group and srv.Wait is counted and awaited before the function returns", "O1: no error of Start/Wait/Run/ParallelForEach/Queue.Add is dropped in srv",
-		"O2: the Cleanup service continues on error and on panic and recover-wraps every job", "O3: the orchestrator loop drains with Remove before Wait and returns after wg.Wait")
-	c.R.NotCov = append(c.R.NotCov, "'exactly once when accepted while the pool keeps running'", "late Add racing shutdown", "Group keeping members alive until they return")
+		"O2: the Cleanup service continues on error and on panic and recover-wraps every job", "O3: the orchestrator loop drains with Remove before Wait and returns after wg.Wait",
+		"O4: a Run that starts member services under its own context (Group, Orchestrator) awaits them before it returns, since returning cancels that context")
+	c.R.NotCov = append(c.R.NotCov, "'exactly once when accepted while the pool keeps running'", "late Add racing shutdown")
 	ruleG1(c, map[string]bool{"srv": true}, 5)
 	ruleSrv(c)
+	ruleO4(c)
 	ruleB2(c, map[string]bool{"srv": true}, 3)
 }
 
